@@ -42,7 +42,14 @@ fn lib_scenario(sc: &E2Scenario) {
         .map(|t| {
             shuttle::thread::spawn(move || {
                 for c in 0..calls {
-                    let r = Mnemonic::random(Language::English, len);
+                    // a panicking generation is the thread's death, not the executor's
+                    let r = match catch_unwind(|| Mnemonic::random(Language::English, len)) {
+                        Ok(r) => r,
+                        Err(_) => {
+                            world::note_task_died();
+                            return;
+                        }
+                    };
                     let (ok, text) = match r {
                         Ok(m) => (true, m.to_phrase()),
                         Err(e) => (false, format!("{e}")),
